@@ -152,6 +152,27 @@ pub struct LeafC {
     c: Option<Box<LeafA>>,
 }
 
+/// three types in one file whose name does not end in `.ts` (the file form is taken verbatim); one depends on another
+#[derive(TS)]
+#[ts(export_to = "models.mts")]
+pub struct MtsA {
+    b: MtsB,
+    l: Leaf,
+}
+
+#[derive(TS)]
+#[ts(export_to = "models.mts")]
+pub struct MtsB {
+    l: Option<Leaf>,
+}
+
+#[derive(TS)]
+#[ts(export_to = "models.mts")]
+pub struct MtsC {
+    a: Alpha,
+    b: Vec<MtsB>,
+}
+
 #[derive(TS)]
 #[ts(export_to = "shared.ts")]
 pub struct AlA {
@@ -339,6 +360,9 @@ pub fn entries() -> Vec<Entry> {
         entry!("Wrap<Leaf>", Wrap<Leaf>),
         entry!("Wrap<Alpha>", Wrap<Alpha>),
         entry!("TooHigh", TooHigh),
+        entry!("MtsA", MtsA),
+        entry!("MtsB", MtsB),
+        entry!("MtsC", MtsC),
         entry!("UsesHigh", UsesHigh),
         entry!("ViaHigh", ViaHigh),
         entry!("HighExisting", HighExisting),
